@@ -237,7 +237,7 @@ def build_unit_text(unit, xdir, specs, report):
     head.append('#ifndef KF_EXCLUDE\n#define KF_EXCLUDE 1\n#endif')
     head.append('#include "l0.h"')
     head.append('#include "inv.h"')
-    head.append('uint64_t g_N; struct vsnap pre_self, pre_o; struct gsnap pre_g;')
+    head.append('uint64_t g_N; struct vsnap pre_self, pre_o; struct gsnap pre_g; _Bool g_alias; uint64_t g_src;')
     nhead = sum(h.count('\n') + 1 for h in head)
     body = '\n'.join(head) + '\n' + text + '\n#include "l0_globals.c"\n' + 'void harness(void) {\n%s\n  l0_havoc();\n  %s\n}\n' % (decls, call)
     cmap2 = {ln + nhead: v for ln, v in cmap.items() if ln != 'ordinals'}
